@@ -21,6 +21,7 @@ EXC = {
     "LinAlgError": np.linalg.LinAlgError,
     "OSError": OSError,
     "RuntimeError": RuntimeError,
+    "KeyboardInterrupt": KeyboardInterrupt,  # cancellation: Ctrl-C in a notebook session that then carries on
 }
 
 
